@@ -896,6 +896,7 @@ func corner() []Spec {
 func main() {
 	flag.BoolVar(&misplaced, "misplaced", false, "also generate elements before vertex / between vertex and face")
 	run := hx.ParseFlags("C08", "Check.C08")
+	run.ShardMax = 100 // a shard of 250 files needs 1.2 GB in coqc; 16 run in parallel
 	for _, in := range run.Inputs() {
 		var s Spec
 		if err := json.Unmarshal(in.Raw, &s); err == nil && len(s.VProps) > 0 {
